@@ -25,6 +25,11 @@ CHECKS = {
    text="For every configuration (lg_k 5..8 x 4 resize factors x p in {1,0.5,2^-10} x seeds) five default runs of 4k offers (ascending, descending, alternating, two classes of hashes colliding in the whole probe sequence for every table size, public update of items against the reference hash) are executed on the real sketch with every single deviation {theta-1, theta, 1, duplicate min/max, max+1, trim, reset} at grid positions (double deviations at lg_k 5,6), plus a BFS (depth 4-6) over 13 ops from the empty state and the states just before each resize/rebuild. In every state: iter()=={offered h: 0<h<theta}, no duplicates, theta non-increasing/an offered hash/below initial only after >k hashes, rebuild and trim leave exactly k, estimate==retained/theta (== distinct count in exact mode), is_empty iff never updated, compact(true|false) same entries/emptiness/estimate/theta, <=15/16*2k retained.",
    note="Hashes are offered through the add-only hook (screened like update); one default run per configuration uses the public update with the reference MurmurHash as the model. BFS merges on (retained set, theta, table size) irrespective of table layout.",
    design="3/C04"),
+ "C03": dict(
+   technique="exhaustive depth-2 product over a 167-member sketch pool x lg_max_k + explicit-state BFS (merged by reference content, arrivals compared) on the real HllUnion against a folded register-wise-max reference",
+   text="Pool: lg_k {4,5,8,10,12} x {Hll4,Hll6,Hll8} x {empty, list, set, dense array, array with exceptions (63/31/32/aux)} x {fresh, serialize round trip, out-of-order via a previous union, out-of-order via a foreign (spec-encoded) image}. Every ordered pair of pool members is fed to a real HllUnion for every lg_max_k in {4,7,8,10,12,21}; a BFS to depth 5 (7 thorough) over one member per (gadget mode x source mode x lg relation) cell plus update_value x3 and reset explores orders and repetitions. After every step: lg_config_k == min(lg_max_k, array inputs), to_sketch(Hll4|6|8) content == folded register-wise max / coupon union, converted sketches internally consistent, estimate and six bounds bit-identical across the three requested types and equal to the union's own accessors, estimate > 0 for non-empty inputs, bounds ordered; merged arrivals must have identical content.",
+   note="Pool contents are built through the coupon hook so the reference knows them exactly; thorough adds lg_k 6,7,9,14.",
+   design="3/C03"),
 }
 NOT_BUILT = "check not built yet in this session (planned in DESIGN.md section 3); not claimed until it exists"
 def main():
